@@ -5,7 +5,7 @@ interpreted; every other sub-expression is an opaque atom keyed by its normalise
 ratios: integers the constructors require to be >= 1, so a form with no positive atom coefficient is at most its value at
 atoms = 1 (and dually); sign() decides <= 0 / >= 0 from that, anything else is `None` (unknown), never guessed."""
 import ast
-from .core import norm
+from .core import norm, cnorm
 
 
 def linform(n):
@@ -20,7 +20,7 @@ def linform(n):
         for c, o in ((n.left, n.right), (n.right, n.left)):
             if isinstance(c, ast.Constant) and isinstance(c.value, int) and not isinstance(c.value, bool):
                 return scale(linform(o), c.value)
-    return {norm(n): 1}
+    return {cnorm(n): 1}
 
 
 def scale(f, k):
